@@ -161,4 +161,16 @@ theorem xmlTripleBack_id (t : Triple)
     cases l <;> rfl
 
 
+
+/-- without `rdf:li` predicates the parser's view is the per-triple one -/
+theorem xmlBackFrom_map (ts : List Triple) (h : ∀ t ∈ ts, t.p ≠ rdfLi) :
+    ∀ (cur : Option Subj) (k : Nat), xmlBackFrom cur k ts = ts.map xmlTripleBack := by
+  induction ts with
+  | nil => intro cur k; rfl
+  | cons t ts ih =>
+    intro cur k
+    have ht : t.p ≠ rdfLi := h t (List.mem_cons_self ..)
+    have hts : ∀ t' ∈ ts, t'.p ≠ rdfLi := fun t' ht' => h t' (List.mem_cons_of_mem _ ht')
+    simp only [xmlBackFrom, ht, if_false, List.map_cons, ih hts]
+
 end SgModel.Rdf
